@@ -220,3 +220,20 @@ def run(tier, seed, escalate=False):
 
 
 replay = P.replay
+
+
+# ------------------------------------------------------------------ the same numbers stored in another dtype
+from oracles import dtype_independence, merge_oracle
+from common import np, dnp
+DTYPE_CASES = [("phase", lambda d, dim: dnp.phase(d, dim, 30.0, -45.0), "f2"),
+    ("phase-arrays", lambda d, dim: dnp.phase(d, dim, np.arange(6) * 20.0 - 40.0, np.arange(6) * -15.0 + 30.0), "f2"),
+    ("phase_cycle", lambda d, dim: dnp.phase_cycle(d, dim, [0, 1, 2, 3]), "t2")]
+_run_before_dtype = run
+
+
+def run(tier, seed, escalate=False):
+    """… plus: integer / single-precision / complex storage of the values and integer / unsigned / single-precision storage of
+    the processed axis give the result of the float64 object (a dtype the function refuses is not judged)"""
+    res = _run_before_dtype(tier, seed, escalate)
+    f, n = dtype_independence("C13", DTYPE_CASES, seed, dim_positions=(1,) if tier == "quick" and not escalate else (0, 1, 2))
+    return merge_oracle(res, f, n, "storage_dtype_variants")
